@@ -8,6 +8,7 @@ import H263V.Lemmas.SorensonRoundTrip
 import H263V.Lemmas.BaseRoundTrip
 import H263V.Lemmas.SorensonPicture
 import H263V.Lemmas.Total
+import H263V.Lemmas.PlusHeader
 namespace H263V.Thm.C06
 open H263V H263V.Spec.Vlc H263V.Spec.Syntax H263V.Spec.HeaderSpec
 
@@ -42,6 +43,35 @@ theorem parse_encode_baseline (h : BaseHdr) (hv : Lemmas.BaseRoundTrip.Valid h) 
     Header.decodePicture { sorenson := false, scalability := false } prev ⟨encodeBaseHdr h ++ rest, pos⟩ =
       .ok (some (basePicture h), ⟨rest, pos + (encodeBaseHdr h).length⟩) :=
   Lemmas.BaseRoundTrip.round_trip h hv prev hprev rest pos
+
+/-- H.263 headers with PLUSPTYPE (H.263v2), both update codes.  UFEP = 001: OPPTYPE with every source format, the custom
+picture format CPFMT (with EPAR when PAR = 15), the custom clock CPCFC and the two ETR bits it adds to TR, UUI, SSS, ELNUM and RLNUM
+when scalability was negotiated, RPSMF; UFEP = 000: the OPPTYPE-class modes are inherited from the previous header and only
+MPPTYPE is sent.  In both: every picture type code, RRU and RTYPE, CPM with PSBI, TRPI / TRP / BCI when reference picture
+selection is in force, PQUANT, TRB (3 bits, 5 with a custom clock) and DBQUANT of improved PB frames, and any extra-information
+bytes.  Parsing the encoded header yields exactly the specified record and consumes exactly the header's bits, whatever
+follows and at any alignment.  `Valid` states the field widths, the fixed marker bits, that RPR is not signalled (the parser
+rejects it) and that the format does not change against `prev`. -/
+theorem parse_encode_plusptype (scal : Bool) (prev : Option PicHdr) (h : PlusHdr) (hv : Lemmas.PlusRoundTrip.Valid scal prev h)
+    (rest : Bits) (pos : Nat) :
+    Header.decodePicture { sorenson := false, scalability := scal } prev
+        ⟨encodePlusHdr scal (Opt.has (Lemmas.PlusRoundTrip.oppInForce prev h) Opt.REFERENCE_PICTURE_SELECTION) h ++ rest, pos⟩ =
+      .ok (some (plusPicture scal (Header.prevOptions prev) h),
+           ⟨rest, pos + (encodePlusHdr scal (Opt.has (Lemmas.PlusRoundTrip.oppInForce prev h) Opt.REFERENCE_PICTURE_SELECTION) h).length⟩) :=
+  Lemmas.PlusHeader.plus_round_trip scal prev h hv rest pos
+
+/-- the hypotheses of `parse_encode_plusptype` are satisfiable: a custom-format, custom-clock, UMV, slice-structured,
+reference-picture-selection improved-PB header with extended PAR and extra information -/
+example : Lemmas.PlusRoundTrip.Valid true none
+    { tr := 200, ufep := true, srcFmt := 6, customPcf := true, umv := true, ss := true, rps := true, mq := true, picType := 2,
+      rtype := true, cpm := some 3, par := 15, pwi := 43, phi := 36, eparW := 12, eparH := 11, cpcfc := 100, etr := 3,
+      sssRect := true, elnum := 2, rlnum := 1, rpsmf := 5, trp := some 1000, quant := 31, trb := 31, dbquant := 3,
+      extra := [1, 255] } := by
+  refine ⟨by decide, by decide, by decide, ⟨rfl, rfl, rfl, rfl, rfl, rfl⟩, rfl, ?_, ?_, by decide, by decide, by decide, ?_, by decide,
+    by decide, by decide, by decide, rfl⟩
+  · intro p hp; cases hp; decide
+  · intro _ _; exact ⟨by decide, by decide, by decide, fun _ => by decide⟩
+  · intro v hv; cases hv; decide
 
 /-- Up to seven zero stuffing bits in front of the start code, within the alignment window of the current position, are
 skipped: the header parses exactly as it does at the start code (any header flavour). -/
